@@ -150,25 +150,23 @@ def exec_environment(ctx, rid):
         return None
     fs = ctx.fn(repo.func(ARB + ".start"))
 
-    def parsed_by_start(value):
-        """what start() hands to create_sockets as inherited descriptors when GUNICORN_FD holds `value` (evaluated)"""
+    def parsed_by_start(environ):
+        """the descriptors start() hands to create_sockets as inherited when it runs (as pid 2000) in the environment
+        `environ` (evaluated; os.environ is that dict, systemd.listen_fds answers per the sd_listen_fds protocol)"""
         cs_ = calls_to(repo, fs, "gunicorn.sock.create_sockets")
         if not cs_ or len(cs_[0].args) < 3:
             return None
+        sd = int(environ["LISTEN_FDS"]) if environ.get("LISTEN_PID") == "2000" and str(environ.get("LISTEN_FDS", "")).isdigit() else 0
 
         def at(e):
-            if isinstance(e, ast.Call) and isinstance(e.func, ast.Attribute) and e.func.attr in ("get", "pop") and rname(fs, e.func.value) == "os.environ" and e.args and isinstance(const(e.args[0], NO), str):
-                return "ENV:" + const(e.args[0])
-            if isinstance(e, ast.Subscript) and rname(fs, e.value) == "os.environ" and isinstance(const(e.slice, NO), str):
-                return "ENV:" + const(e.slice)
             if isinstance(e, ast.Call) and (repo.call_target(fs.module, fs, e) or "").endswith("systemd.listen_fds"):
                 return "SD_FDS"
             return None
 
         def probe(ex, env_):
             v = ex.ev(cs_[0].args[2], env_)
-            return tuple(v) if isinstance(v, (tuple, list)) else v
-        env = {"ENV:GUNICORN_FD": value, "ENV:GUNICORN_PID": "1000", "SD_FDS": 0, "self.LISTENERS": (), "self.master_pid": 1000}
+            return tuple(v) if isinstance(v, (tuple, list, range)) else v
+        env = {"os.environ": dict(environ), "SD_FDS": sd, "self.LISTENERS": (), "self.master_pid": int(environ.get("GUNICORN_PID", 0)), "self.systemd": False}
         outs = Explorer(fs, atom_of=at, max_states=200000).run(fs.cfg.entry, env, probes={n.id: ("fds", probe) for n in nodes_with(fs, cs_[0])})
         return set(v for o in outs for nm, v in o.events if nm == "fds")
     sep_r = ","
@@ -187,30 +185,39 @@ def exec_environment(ctx, rid):
         outs = Explorer(f, atom_of=atom_of).run(g.entry, env, probes={n.id: ("environ", probe) for n in ex_nodes})
         got = set(v for o in outs for nm, v in o.events if nm == "environ")
         want = {"PATH": "/bin", "LANG": "C", "GUNICORN_CMD_ARGS": "--user=app --workers=3", "GUNICORN_PID": "1000"}
+        optional = ()
         if sysd:
+            # the sd_listen_fds keys tell the new master that it runs in systemd mode (it must not unlink systemd's unix socket);
+            # they cannot name descriptors, so GUNICORN_FD may accompany them
             want.update({"LISTEN_PID": "2000", "LISTEN_FDS": "3"})
+            optional = ("GUNICORN_FD",)
         else:
             want["GUNICORN_FD"] = (sep_r if isinstance(sep_r, str) else ",").join(["7", "9", "12"])
+        # writer/reader agreement: whatever reexec writes, start() -- run in that very environment -- must arrive at the
+        # descriptors the listeners really have in the old master (7, 9, 12), in both modes
+        for x in sorted(got, key=str):
+            back = parsed_by_start(dict(x)) if isinstance(x, tuple) else None
+            ctx.check(rid, back == {(7, 9, 12)}, key(f, "fd-round-trip" + ("|systemd" if sysd else "")), site(f, text="systemd=%s" % sysd),
+                      "reexec (systemd=%s) hands listeners that live on fds 7, 9, 12 over in the environment %s, from which start() takes the descriptors %s: the new master wraps descriptors that are "
+                      "not the listeners (sock.BaseSocket dup'ed and closed the numbers systemd passed) and dies at start-up" % (sysd, dict(x) if isinstance(x, tuple) else x, sorted(map(str, back or ["?"]))),
+                      "descriptors written == descriptors parsed")
+            if back == {(7, 9, 12)} and isinstance(x, tuple):
+                for k_ in ("GUNICORN_FD",) + optional:
+                    if k_ in dict(x):
+                        want[k_] = dict(x)[k_]
         wantt = tuple(sorted(want.items()))
         rows.append({"systemd": sysd, "environment handed to exec": [dict(x) if isinstance(x, tuple) else x for x in got], "required": want})
-        if not sysd:
-            # writer/reader agreement: the string reexec writes is parsed by start() into the same descriptors
-            fdv = set(dict(x).get("GUNICORN_FD") for x in got if isinstance(x, tuple))
-            for v in fdv:
-                back = parsed_by_start(v) if isinstance(v, str) else None
-                ctx.check(rid, back == {(7, 9, 12)}, key(f, "fd-round-trip"), site(f), "reexec hands listeners on fds 7, 9, 12 over as GUNICORN_FD=%r, which start() parses into %s" % (v, sorted(map(str, back or []))),
-                          "GUNICORN_FD written == parsed")
-                if back == {(7, 9, 12)} and isinstance(v, str):
-                    want["GUNICORN_FD"] = v
-                    wantt = tuple(sorted(want.items()))
         ctx.check(rid, got == {wantt}, key(f, "mode|systemd=%s" % sysd), site(f, text="systemd=%s" % sysd),
                   "with systemd=%s, old master pid 1000, child pid 2000 and listeners on fds 7, 9, 12 the new master's environment is %s, required %s (original environment + the hand-off keys of this mode; "
                   "GUNICORN_PID is the old master's pid, LISTEN_PID the exec'ing process, fds in the spelling start() parses)" % (sysd, [dict(x) if isinstance(x, tuple) else x for x in got], want), "%s" % (want,))
     # no listener of its own (reuse_port: the workers bind): the list is empty, the variable is '' -- the new master still boots
-    back0 = parsed_by_start("")
+    back0 = parsed_by_start({"GUNICORN_PID": "1000", "GUNICORN_FD": ""})
     ctx.check(rid, back0 == {()}, key(f, "fd-round-trip-empty"), site(fs),
               "with no listener to hand over (reuse_port) reexec writes GUNICORN_FD='', which start() parses into %s: the new master dies at start-up (int('')), leaving a stale '.2' pid file; "
               "once the old master is stopped nobody serves" % sorted(map(str, back0 or ["an exception"])), "'' -> no inherited descriptors")
+    # a master started by systemd itself (no old master): descriptors 3.. as the protocol says
+    back1 = parsed_by_start({"LISTEN_PID": "2000", "LISTEN_FDS": "2"})
+    ctx.check(rid, back1 == {(3, 4)}, key(f, "systemd-first-start"), site(fs), "started by systemd with LISTEN_FDS=2, start() takes the descriptors %s, required 3 and 4" % sorted(map(str, back1 or ["?"])), "SD_LISTEN_FDS_START..")
     ctx.table(rid + " environment handed to the new master", rows)
 
 
